@@ -202,5 +202,9 @@ int main(void)
       }
     printf("\n");
   }
+  if (setjmp(jb)) return 0;
+  jpeg_destroy_compress(&cc);
+  jpeg_destroy_decompress(&dc);
+  free(jbuf); free(src); free(dst); free(vals); free(line);
   return 0;
 }
